@@ -150,6 +150,17 @@ def check(run):
         k = rng.randrange(0, len(pa))                       # init + k-1 continuations of A were seen (k = 0: nothing)
         reuse_cases.append((dict(cb, ch=ca["ch"]), pa[:k], pb))
     reuse_in = [{"op": "recv", "packets": [p.hex() for p in pre + pb]} for _, pre, pb in reuse_cases]
+    # ---- phase 2c: a message completes, then continuation packets arrive on that channel with no new init packet - carrying on the
+    # old numbering, starting again at 0, or repeating the last one: a channel with no message in progress yields nothing
+    after_cases = []
+    for (c, o) in (multi[:25] if run.tier == "quick" else multi[:250]):
+        pk = packets_of(o)
+        ch = pk[0][:4]
+        ncont = len(pk) - 1
+        for tag, seqs in (("carrying on", list(range(ncont, ncont + len(pk) + 2))), ("from zero", list(range(0, len(pk) + 1))), ("repeated", [ncont - 1] * 3)):
+            strays = [ch + bytes([q & 0x7f]) + bytes((7 * j + q) % 251 + 1 for j in range(59)) for q in seqs if 0 <= q]
+            after_cases.append((c, pk, strays, tag))
+    after_in = [{"op": "recv", "packets": [p.hex() for p in pk + strays]} for _, pk, strays, _ in after_cases]
 
     # ---- phase 3: arbitrary / malformed packet sequences (model correspondence on error paths)
     mal = corpus("recv")
@@ -170,8 +181,9 @@ def check(run):
                 p[5:7] = bc.to_bytes(2, "big")
             seq.append(bytes(p))
         mal.append({"op": "recv", "packets": [p.hex() for p in seq]})
-    recv_out_all = common.harness_run(binary, recv_in + mal + reuse_in)
-    recv_out, reuse_out = recv_out_all[:len(recv_in) + len(mal)], recv_out_all[len(recv_in) + len(mal):]
+    recv_out_all = common.harness_run(binary, recv_in + mal + reuse_in + after_in)
+    recv_out, reuse_out = recv_out_all[:len(recv_in) + len(mal)], recv_out_all[len(recv_in) + len(mal):len(recv_in) + len(mal) + len(reuse_in)]
+    after_out = recv_out_all[len(recv_in) + len(mal) + len(reuse_in):]
 
     def outs_term(o):
         if "outs" not in o:
@@ -204,6 +216,17 @@ def check(run):
         if got != want[len(pre):]:
             reuse_fail.append((dict(c, note="a new message on a channel whose previous message was abandoned after %d packet(s) is not delivered "
                                             "exactly once on its last packet" % len(pre)), o))
+        terms.append("CRecv [%s] %s" % ("; ".join(blit(bytes.fromhex(p)) for p in c["packets"]), ot))
+        all_cases.append(("recv", c, o))
+    for (m, pk, strays, tag), c, o in zip(after_cases, after_in, after_out):
+        ot = outs_term(o)
+        if ot is None:
+            crashed.append((c, o)); continue
+        want = [None] * (len(pk) - 1) + [{"ch": m["ch"], "cmd": m["cmd"], "payload": m["payload"]}] + [None] * len(strays)
+        if o["outs"] != want:
+            k = next(i for i, (a, b) in enumerate(zip(o["outs"], want)) if a != b)
+            reuse_fail.append((dict(c, note="after a message of %d packets completed, continuation packets (%s) on that channel - which has no message in "
+                                            "progress - are not ignored: packet #%d yields %s" % (len(pk), tag, k, "a message of %d bytes" % (len(o["outs"][k]["payload"]) // 2) if o["outs"][k] else "nothing where the message was due")), o))
         terms.append("CRecv [%s] %s" % ("; ".join(blit(bytes.fromhex(p)) for p in c["packets"]), ot))
         all_cases.append(("recv", c, o))
     for c, o in reuse_fail[:2]:
